@@ -1062,6 +1062,13 @@ pub fn grid(full: bool) -> Vec<DataType> {
         list_of(ree_of(Int32, Int32)),
         list_of(map_of(Utf8, Int32)),
         large_list_of(list_of(Utf8)),
+        // every other child kind below a list (the writer windows the child per type)
+        list_of(ListView(fld("item", Int32, true))),
+        list_of(FixedSizeList(fld("item", Int32, true), 2)),
+        list_of(Null),
+        list_of(Int8),
+        list_of(Decimal256(40, 3)),
+        list_of(LargeBinary),
     ];
     if full {
         v.extend([
@@ -1113,7 +1120,6 @@ pub fn grid(full: bool) -> Vec<DataType> {
             ListView(fld("item", dict_of(Int8, Utf8), true)),
             FixedSizeList(fld("item", dict_of(Int8, Utf8), true), 2),
             dict_of(Int8, list_of(dict_of(Int8, Utf8))),
-            list_of(Null),
             struct_of(vec![("n", Null, true)]),
         ]);
     }
